@@ -291,7 +291,7 @@ class Lexer:
             if char is not None and char in "+-":
                 self._position += 1
 
-            self._read_over_integer()
+            self._read_over_digits()
 
         # Explicit lookahead restrictions.
         try:
